@@ -211,7 +211,13 @@ def _fit_mt(case, run_idx, clock_mode, perturb, reuse=None, decoy=None):
             if decoy is not None:
                 # the object has a past: it was fitted to another hypergraph (other size, other isolated nodes) before
                 hd = _gen.build_hypergraph(decoy["spec"])
-                m.fit(hd, K=decoy["K"], seed=decoy["seed"], normalizeU=case["normalizeU"], baseline_r0=case["baseline_r0"])
+                try:
+                    m.fit(hd, K=decoy["K"], seed=decoy["seed"], normalizeU=case["normalizeU"], baseline_r0=case["baseline_r0"])
+                except Exception as e:  # noqa
+                    # the other hypergraph is an input in its own right: same signature as for the main input
+                    raise Violation(f"C17/mt/raised[{type(e).__name__}]", {
+                        "exception": repr(e), "input": "the hypergraph the object is fitted to first", "decoy": decoy,
+                        "normalizeU": case["normalizeU"], "baseline_r0": case["baseline_r0"]})
             u, w, L = m.fit(h, K=case["K"], seed=case["sut_seed"], normalizeU=case["normalizeU"], baseline_r0=case["baseline_r0"], **extra)
     finally:
         _uninstall(saved)
@@ -314,6 +320,8 @@ def execute(case):
                 stats["same_object_fitted_twice"] = stats.get("same_object_fitted_twice", 0) + 1
             if case.get("decoy"):
                 stats["fitted_after_another_hypergraph"] = stats.get("fitted_after_another_hypergraph", 0) + 1
+        except Violation:
+            raise
         except Exception as e:  # noqa
             raise Violation(f"C17/mt/raised-on-second-run[{type(e).__name__}]", {"exception": repr(e), **ctx})
         t1 = t1_saved
